@@ -106,7 +106,7 @@ fn c11_send_announce() {
 /// TLV provider that honours exactly the documented contract of `ForwardedTLVProvider::next_if_smaller`
 /// ("provide the next available TLV, unless it is larger than max_size") over a queue of two TLVs.
 struct TwoTlvs<'a> {
-    buf: &'a [u8],
+    buf: [&'a [u8]; 2],
     ty: [TlvType; 2],
     len: [usize; 2],
     sender: [PortIdentity; 2],
@@ -126,11 +126,12 @@ impl ForwardedTLVProvider for TwoTlvs<'_> {
             return None;
         }
         self.next += 1;
-        Some(ForwardedTLV { tlv: Tlv { tlv_type: self.ty[i], value: (&self.buf[..self.len[i]]).into() }, sender_identity: self.sender[i] })
+        Some(ForwardedTLV { tlv: Tlv { tlv_type: self.ty[i], value: (&self.buf[i][..self.len[i]]).into() }, sender_identity: self.sender[i] })
     }
 }
 
 fn forward_case(l0: usize, l1: usize) {
+    use crate::datastructures::common::verif_tlv::{add_cap, add_count, add_tlv};
     let state = any_state(0);
     state.poke().path_trace_ds.enable = kani::any();
     let cfg = PortCfg::plain();
@@ -140,11 +141,13 @@ fn forward_case(l0: usize, l1: usize) {
     kani::assume(other != parent);
     let mut vbuf = [0u8; 64];
     vbuf[0] = kani::any();
+    let mut wbuf = [0u8; 64];
+    wbuf[0] = kani::any();
     let from_parent = [kani::any::<bool>(), kani::any::<bool>()];
     // TLV types: ORGANIZATION_EXTENSION_PROPAGATE or PATH_TRACE (the two classes the send side distinguishes)
     let tyv: [u16; 2] = [if kani::any() { 0x4000 } else { 0x0008 }, if kani::any() { 0x4000 } else { 0x0008 }];
     let mut prov = TwoTlvs {
-        buf: &vbuf,
+        buf: [&vbuf, &wbuf],
         ty: [TlvType::from_primitive(tyv[0]), TlvType::from_primitive(tyv[1])],
         len: [l0, l1],
         sender: [if from_parent[0] { parent } else { other }, if from_parent[1] { parent } else { other }],
@@ -161,11 +164,13 @@ fn forward_case(l0: usize, l1: usize) {
     let mut expect_len = 0usize;
     if pt_on { room -= 12; expect_tlvs += 1; expect_len += 12; }
     let mut fwd = [false, false];
+    let mut handed = 0usize;
     let mut k = 0;
     while k < 2 {
         let size = 4 + prov.len[k];
         if size <= room {
             // handed over by the provider (and thereby consumed from the queue) ...
+            handed += 1;
             let keep = from_parent[k] && !(pt_on && tyv[k] == 0x0008);
             // ... and appended iff it comes from the parent and is not a PATH_TRACE TLV we replaced
             if keep { fwd[k] = true; expect_tlvs += 1; expect_len += size; room -= size; }
@@ -174,143 +179,50 @@ fn forward_case(l0: usize, l1: usize) {
         }
         k += 1;
     }
-    assert!(ser_tlv_count() == expect_tlvs && ser_suffix_len() == expect_len, "C15: forwarded TLV set differs from (parent TLVs that fit, in order, once)");
+    assert!(prov.next == handed, "C15: a TLV was taken from the provider although it does not fit / left although it fits");
+    assert!(add_count() == expect_tlvs && ser_suffix_len() == expect_len, "C15: forwarded TLV set differs from (parent TLVs that fit, in order, once)");
     assert!(d.general_len == 64 + expect_len && d.general_len <= MAX_DATA_LEN, "C15: frame exceeds the maximum size / wrong length");
-    // content and order of the forwarded TLVs
+    assert!(expect_tlvs == 0 || add_cap() >= MAX_DATA_LEN - 64);
+    // identity, content and order of the TLVs handed to the builder
     let base = if pt_on { 1 } else { 0 };
-    if fwd[0] && base < 2 {
-        let (ty, l, v) = ser_tlv(base);
-        assert!(ty == tyv[0] && l == l0 && (l0 == 0 || v[0] == vbuf[0]), "C15: first forwarded TLV modified");
+    if pt_on {
+        let (ty, l, _, _) = add_tlv(0);
+        assert!(ty == 0x0008 && l == 8, "C15: own PATH_TRACE TLV must come first");
     }
-    if fwd[1] && base + (fwd[0] as usize) < 2 {
-        let (ty, l, v) = ser_tlv(base + (fwd[0] as usize));
-        assert!(ty == tyv[1] && l == l1 && (l1 == 0 || v[0] == vbuf[0]), "C15: second forwarded TLV modified / out of order");
+    if fwd[0] {
+        let (ty, l, p, b0) = add_tlv(base);
+        assert!(ty == tyv[0] && l == l0 && p == vbuf.as_ptr() as usize && (l0 == 0 || b0 == vbuf[0]), "C15: first forwarded TLV modified");
+    }
+    if fwd[1] {
+        let (ty, l, p, b0) = add_tlv(base + (fwd[0] as usize));
+        assert!(ty == tyv[1] && l == l1 && p == wbuf.as_ptr() as usize && (l1 == 0 || b0 == wbuf[0]), "C15: second forwarded TLV modified / out of order");
     }
     kani::cover!(fwd[0] && fwd[1], "two TLVs forwarded");
     kani::cover!(fwd[0] && !fwd[1], "second TLV not forwarded");
     kani::cover!(!from_parent[0], "TLV of another sender dropped");
+    kani::cover!(handed == 1, "second TLV stays queued");
     core::mem::forget(port);
 }
 
-// @harness c15_forward_small
-// @props C15
-// @tier thorough
-// @role best_effort
+// @harness c15_forward_any_lengths
+// @props C15 C03 C17
+// @tier quick
 // @variant dl128_lists2
 // @features none
 // @stubbing yes
 // @timeout 2700
-// @mem 30
-// @functions Port::send_announce, TlvSetBuilder::add, ForwardedTLV::size, Tlv::wire_size
-// @bounds master port, provider queue of two TLVs with value lengths (6, 8), TLV types PATH_TRACE or ORGANIZATION_EXTENSION_PROPAGATE (symbolic choice), each from the parent or from another sender, path trace on/off (empty received path)
-// @assume provider honours the documented contract of next_if_smaller (returns the next TLV iff its wire size <= max_size); MAX_DATA_LEN scaled to 128 (room 64); recording serialize stub
+// @mem 20
+// @functions Port::send_announce, ForwardedTLV::size, Tlv::wire_size, TlvSetBuilder::build, Message::wire_size
+// @bounds master port, provider queue of two TLVs with arbitrary even value lengths 0..=62 each (every relation to the room of 64 / 52 octets: smaller, exactly fitting, larger), TLV types PATH_TRACE or ORGANIZATION_EXTENSION_PROPAGATE, each from the parent or from another sender, path trace on/off (empty received path)
+// @assume provider honours the documented contract of next_if_smaller (returns the next TLV iff its wire size <= max_size); MAX_DATA_LEN scaled to 128 (room 64); recording stubs for Message::serialize and TlvSetBuilder::add (octets: c04_encode_announce, c15_tlv_builder_readback)
 #[kani::proof]
 #[kani::unwind(20)]
-#[kani::stub(crate::datastructures::messages::Message::serialize, crate::datastructures::messages::verif_messages::serialize_rec)]
+#[kani::stub(crate::datastructures::messages::Message::serialize, crate::datastructures::messages::verif_messages::serialize_rec_lite)]
+#[kani::stub(crate::datastructures::common::TlvSetBuilder::add, crate::datastructures::common::verif_tlv::add_rec)]
 #[kani::stub(crate::time::Interval::as_core_duration, crate::verif_root::stubs::as_core_duration_int)]
-fn c15_forward_small() { forward_case(6, 8) }
-
-// @harness c15_forward_exact_fit
-// @props C15
-// @tier thorough
-// @role best_effort
-// @variant dl128_lists2
-// @features none
-// @stubbing yes
-// @timeout 2700
-// @mem 30
-// @functions Port::send_announce, TlvSetBuilder::add
-// @bounds as c15_forward_small with value lengths (60, 0): the first TLV's wire size equals the whole room (64) when path trace is off
-// @assume as c15_forward_small
-#[kani::proof]
-#[kani::unwind(20)]
-#[kani::stub(crate::datastructures::messages::Message::serialize, crate::datastructures::messages::verif_messages::serialize_rec)]
-#[kani::stub(crate::time::Interval::as_core_duration, crate::verif_root::stubs::as_core_duration_int)]
-fn c15_forward_exact_fit() { forward_case(60, 0) }
-
-// @harness c15_forward_second_exact_fit
-// @props C15
-// @tier thorough
-// @role best_effort
-// @variant dl128_lists2
-// @features none
-// @stubbing yes
-// @timeout 2700
-// @mem 30
-// @functions Port::send_announce, TlvSetBuilder::add
-// @bounds as c15_forward_small with value lengths (20, 36): the second TLV's wire size equals the remaining room (40) after the first
-// @assume as c15_forward_small
-#[kani::proof]
-#[kani::unwind(20)]
-#[kani::stub(crate::datastructures::messages::Message::serialize, crate::datastructures::messages::verif_messages::serialize_rec)]
-#[kani::stub(crate::time::Interval::as_core_duration, crate::verif_root::stubs::as_core_duration_int)]
-fn c15_forward_second_exact_fit() { forward_case(20, 36) }
-
-// @harness c15_forward_too_big
-// @props C15
-// @tier thorough
-// @role best_effort
-// @variant dl128_lists2
-// @features none
-// @stubbing yes
-// @timeout 2700
-// @mem 30
-// @functions Port::send_announce, TlvSetBuilder::add
-// @bounds as c15_forward_small with value lengths (62, 4): the first TLV is two octets larger than the room and must stay queued, blocking the second
-// @assume as c15_forward_small
-#[kani::proof]
-#[kani::unwind(20)]
-#[kani::stub(crate::datastructures::messages::Message::serialize, crate::datastructures::messages::verif_messages::serialize_rec)]
-#[kani::stub(crate::time::Interval::as_core_duration, crate::verif_root::stubs::as_core_duration_int)]
-fn c15_forward_too_big() { forward_case(62, 4) }
-
-// @harness c15_forward_dropped_uses_no_room
-// @props C15
-// @tier thorough
-// @role best_effort
-// @variant dl128_lists2
-// @features none
-// @stubbing yes
-// @timeout 2700
-// @mem 30
-// @functions Port::send_announce, TlvSetBuilder::add
-// @bounds as c15_forward_small with value lengths (28, 36): wire sizes 32 + 40 exceed the room (64) together, each fits alone - a dropped first TLV must not use up room
-// @assume as c15_forward_small
-#[kani::proof]
-#[kani::unwind(20)]
-#[kani::stub(crate::datastructures::messages::Message::serialize, crate::datastructures::messages::verif_messages::serialize_rec)]
-#[kani::stub(crate::time::Interval::as_core_duration, crate::verif_root::stubs::as_core_duration_int)]
-fn c15_forward_dropped_uses_no_room() { forward_case(28, 36) }
-
-// @harness c15_forward_exact_fit_concrete
-// @props C15
-// @tier thorough
-// @role best_effort
-// @variant dl128_lists2
-// @stubbing yes
-// @timeout 2700
-// @mem 34
-// @functions Port::send_announce, TlvSetBuilder::add, ForwardedTLV::size
-// @bounds concrete master port (fresh instance, path trace off), provider with one ORGANIZATION_EXTENSION_PROPAGATE TLV from the parent whose wire size equals the whole room (value 60 octets, room 64 at MAX_DATA_LEN 128; 956 of 960 at the real size), first value octet symbolic
-// @assume provider honours the documented contract of next_if_smaller (wire size <= max_size is handed over), as statime-linux's TlvForwarder does
-#[kani::proof]
-#[kani::unwind(20)]
-#[kani::stub(crate::datastructures::messages::Message::serialize, crate::datastructures::messages::verif_messages::serialize_rec)]
-#[kani::stub(crate::time::Interval::as_core_duration, crate::verif_root::stubs::as_core_duration_int)]
-fn c15_forward_exact_fit_concrete() {
-    let state = fresh_state(false, false);
-    let cfg = PortCfg::plain();
-    let mut port = mk_running(&state, cfg, RecClock::quiet(), RecFilterCfg { ret_delay: None, ret_update: false }, PortState::Master);
-    let parent = state.peek().parent_ds.parent_port_identity;
-    let mut vbuf = [0u8; 64];
-    vbuf[0] = kani::any();
-    let mut prov = TwoTlvs { buf: &vbuf, ty: [TlvType::OrganizationExtensionPropagate, TlvType::OrganizationExtensionPropagate], len: [60, 0],
-                             sender: [parent, parent], next: 0, n: 1, calls: 0 };
-    let (d, _) = drain(port.handle_announce_timer(&mut prov));
-    assert!(d.n == 2 && d.send_general == 1, "C15: forwarding made the Announce fail to be sent");
-    assert!(ser_tlv_count() == 1 && ser_suffix_len() == 64 && d.general_len == 128, "C15: a TLV that exactly fits must be forwarded");
-    let (ty, l, v) = ser_tlv(0);
-    assert!(ty == 0x4000 && l == 60 && v[0] == vbuf[0]);
-    kani::cover!(true, "sent");
-    core::mem::forget(port);
+fn c15_forward_any_lengths() {
+    let l0: usize = kani::any();
+    let l1: usize = kani::any();
+    kani::assume(l0 <= 62 && l0 % 2 == 0 && l1 <= 62 && l1 % 2 == 0);
+    forward_case(l0, l1)
 }
